@@ -234,5 +234,24 @@ PROPS["C02"] = {
     "assumptions": ["named types have a non-empty package; the tracker's local package is the namer's or empty"],
 }
 
+_UNI_NOTE = ("Trusted: Lean kernel; go/types is the source of the input facts (node graph, String() of every type, scope objects) and the "
+             "authority of the oracle; the model of walkType/Universe (validated by comparing complete canonical universe dumps with the real "
+             "loaders on generated programs); the builtins table is regenerated from /repo's source on every run.")
+PROPS["C01"] = {
+    "variants": ["v1", "v2"],
+    "lean": ["Gengo.Props.C01"],
+    "level": "proof",
+    "level_text": "TODO",
+    "level_note": _UNI_NOTE,
+    "rule": "well-typed multi-package programs (1..3 packages, 2..7 type declarations each: structs with tags/embedded/unexported fields and "
+            "self references, defined types over basics/maps/slices/pointers/arrays/channels/functions/interfaces/other named types, methods "
+            "with value and pointer receivers, variadics and named results, functions, variables, typed and untyped constants, cross-package "
+            "references; v2: generic structs and fields instantiating them); the program is type-checked with go/types, exported as facts, "
+            "loaded by the real parser, and the complete universes are compared. Distinct = distinct program.",
+    "assumptions": ["type aliases (type A = B) are generated for v2 only", "one file per package for the in-memory v1 loader"],
+}
+PROPS["C06"] = dict(PROPS["C01"], lean=["Gengo.Props.C06"])
+PROPS["C20"] = dict(PROPS["C01"], lean=["Gengo.Props.C20"])
+
 # properties not claimed, with the reason (kept current by hand)
 NOT_APPLICABLE = {}
